@@ -113,8 +113,9 @@ def showRes {α} (f : α → String) : Res α → String
   | .exc e => if e == "wildcard has no match" then "EXC nomatch" else "EXC " ++ e
   | .panic _ => "PANIC"
 
-/-- Directory depth is bounded by the number of entries; `FUEL` would be printed. -/
-def fuelFor (t : Tree) (segs : List Seg) : Nat := t.entries.length + segs.length + 8
+/- The fuel is `fuelFor` of FsTree.lean (pattern length × tree depth; proved sufficient for
+well-formed trees, `C23_driver_never_out_of_fuel`).  A tree that is not well-formed (a name that is
+empty, `.`, `..` or holds `/`; a location listed twice) cannot be materialised and is refused. -/
 
 def stepLine : List String → String
   | ["parse", h] =>
@@ -125,7 +126,8 @@ def stepLine : List String → String
     match parseTree tree absroot cwd, parseMods mods with
     | some t, some (nmok, ty, buts) =>
       let fs := t.toFS
-      if mode == "P" then
+      if !t.wf then "bad-tree"
+      else if mode == "P" then
         match hexDecode (String.ofList (pat.toList.drop 1)) with
         | some s =>
           match parse s with
